@@ -41,11 +41,14 @@ structure Dev where
 
 /-- the tree as first pinned (before the `fix:` commits 0a3fd2c and 21415f8) -/
 def Dev.pinned : Dev := ⟨true, true, true⟩
-/-- the code as it is now: only the int-via-float64 deviation is left at operator level -/
-def Dev.current : Dev := ⟨false, false, true⟩
+/-- the code between 21415f8 and 24fcf54: only the int-via-float64 deviation left -/
+def Dev.before24fcf54 : Dev := ⟨false, false, true⟩
+/-- the code as it is now (after 24fcf54, `cmpIntFloat`): no deviation left; the same as `Dev.fixed` -/
+def Dev.current : Dev := ⟨false, false, false⟩
 def Dev.fixed : Dev := ⟨false, false, false⟩
 
-/-- the float an int64 is compared as -/
+/-- the float an int64 is compared as: `float64(tl)` before 24fcf54, its exact value since
+(`cmpIntFloat` at all twelve comparison sites: `Gen.Script.cmpSites`, theorem `C12.int_float_exact_ok`) -/
 def Dev.toF (d : Dev) (i : Int) : Flt := if d.viaF64 then Flt.ofInt i else .fin i 0
 
 /-- Go `left == right` on interface values -/
